@@ -84,9 +84,31 @@ fn any_stream_body<const N: usize, const CAP: usize>(storage: bool) {
             }
         }
         Err(_) => {
-            kani::cover!(true, "error outcome");
+            // an error is acceptable only if the stream does not hold a complete, declarable message at its start
+            if len >= st + 4 {
+                let declared = u16::from_be_bytes([data[st + 2], data[st + 3]]) as usize;
+                assert!(declared < 4 || st + declared > len, "a message completely contained in the stream is not delivered");
+            }
+            kani::cover!(len >= st + 4, "error outcome");
         }
     }
+    std::mem::forget(reader);
+}
+
+/// The public constructor reserves a scratch buffer for a storage header plus the largest declarable message
+/// (and a buffered source at least that large), so the assumption of the harnesses above - the declared length
+/// fits the configured maximum - holds for EVERY 16-bit length field when the reader is built with `new()`.
+#[kani::proof]
+#[kani::unwind(6)]
+fn c07_new_reserves_largest_declarable_message() {
+    let storage: bool = kani::any();
+    let src = Src::<4> { data: [0; 4], len: 0, pos: 0, sched: [255; K], step: 0, reads: 0 };
+    let reader = DltMessageReader::new(src, storage);
+    let (cap, scratch) = dlt_core::read::verif_hooks::capacities(&reader);
+    assert!(scratch >= 16 + 65535, "scratch buffer smaller than storage header + largest declarable message");
+    assert!(cap >= scratch, "buffered source smaller than the largest message");
+    assert!(reader.with_storage_header() == storage);
+    kani::cover!(true);
     std::mem::forget(reader);
 }
 
